@@ -37,10 +37,11 @@ def one(n):
             meta["applies_to_repo"] = False
             json.dump(meta, open(os.path.join(d, "meta.json"), "w"), indent=1)
             return n, "patch does not apply any more: " + o.strip()[:200]
-        env = dict(os.environ, VERIF_REPO=copy)
+        env = dict(os.environ, VERIF_REPO=copy, VERIF_OUT=copy + "-out")
         rc, o = sh("./check %s --tier quick" % pid, env=env)
     finally:
         shutil.rmtree(copy, ignore_errors=True)
+        shutil.rmtree(copy + "-out", ignore_errors=True)
     lines = [l for l in o.split("\n") if l.startswith(("VIOLATION", "OK ", "KNOWN-FINDING"))]
     meta.update({"check_exit": rc, "check_output": lines, "detected": rc != 0, "applies_to_repo": True,
                  "detected_with_failing_input": any(l.startswith("VIOLATION") and "no-failing-input-found" not in l for l in lines)})
